@@ -264,11 +264,25 @@ def check_driver_walk(ctx, schedule, hosts):
     d.challenge = pytypes.SimpleNamespace(schedule=schedule)
     d.load_driver_hosts = [dict(h) for h in hosts]
     ctx.clause("driver-progress")
+    # the worker assignment the driver asks for is observed in place and held against the same contract as the stand-alone layouts
+    original, calls = driver.calculate_worker_assignments, []
+
+    def observed_assignments(host_configs, client_count):
+        result = original(host_configs, client_count)
+        calls.append(([dict(h) for h in host_configs], client_count, result))
+        return result
+
+    driver.calculate_worker_assignments = observed_assignments
     try:
         d.start_benchmark()
     except Exception as e:
         problems.append(("driver-progress", f"Driver.start_benchmark raised {type(e).__name__}: {e}", None))
         return problems, info
+    finally:
+        driver.calculate_worker_assignments = original
+    for host_configs, client_count, result in calls:
+        problems.extend(check_assignments(ctx, host_configs, client_count, result))
+    info["assignment_calls"] = len(calls)
     # every client handed to exactly one worker, together with its own row of the matrix
     ctx.clause("driver-clients-exactly-once")
     seen = collections.Counter()
@@ -318,8 +332,8 @@ def check_driver_walk(ctx, schedule, hosts):
                 reported.setdefault(step, set()).add(message)
             for k, element in enumerate(schedule):
                 want = sorted(t.name for t in leaves(element))  # generated names contain no comma
-                got = {tuple(sorted(m[len("Running "):].split(","))) for m in reported.get(k, set()) if m.startswith("Running ")}
-                if got != {tuple(want)} or len(got) != len(reported.get(k, set())):
+                got = {tuple(sorted(m[len("Running "):].split(","))) if m.startswith("Running ") else (m,) for m in reported.get(k, set())}
+                if got != {tuple(want)}:
                     problems.append(("driver-progress", f"step {k}: progress line(s) {sorted(reported.get(k, set()))[:3]} but the element's tasks are {sorted(t.name for t in leaves(element))}", None))
                     break
     return problems, info
@@ -442,6 +456,8 @@ def eval_schedule_case(ctx, case):
             facts["holds_without_empty_parallel"] = not q1 and not q2
         facts.update({"challenge": ci, "empty_parallel_elements": empty, "steps": info.get("steps"), "progress_entries": info.get("progress_entries")})
         n = info.get("clients", 0)
+        if hasattr(ctx, "distinct"):
+            ctx.distinct("allocation-shapes", (n, info.get("steps"), info.get("progress_entries"), info.get("none_padding"), winfo.get("workers")))
         if n >= 64:
             feats.add("clients-64")
         if info.get("none_padding"):
@@ -559,6 +575,9 @@ def shrink_layout(layout, clause):
 
 
 def run_shard(ctx):
+    if ctx.shard == 0:
+        for case in gen.directed_cases():
+            one_schedule_case(ctx, case, shrink=False)  # kept as written: the first recorded witness is the documented shape
     i = 0
     while ctx.more():
         rng = ctx.case_rng(i)
@@ -597,7 +616,7 @@ def replay(ctx, rec):
 
 
 MANIFEST = {
-    "text": "Exploration: ~2*10^4 (quick) / ~10^6 (thorough) generated schedules (sequential and parallel elements, client caps 1..sum+3, over-commit, "
+    "text": "Exploration: 2*10^4 (quick) / several 10^5 (thorough, time-bounded) generated schedules (sequential and parallel elements, client caps 1..sum+3, over-commit, "
     "completed-by name/any, up to 12 elements and 64 clients, 80% passed through the real task filter so that elements emptied or thinned by filters occur) "
     "are given to the real Allocator: rectangular matrix, aligned join points, every (task, client index) exactly once between the join points of its element "
     "(reference allocation), steps == progress entries == schedule elements with the right task sets; a real Driver is started on the schedule and walked through "
